@@ -115,7 +115,7 @@ Definition apply_bin (op : binop) (a b : pval) : cres :=
 
 Definition un_step (op : unop) (v : pval) : cres :=
   match op with
-  | UAdd => CVal v                                   (* "return v", not "+v" *)
+  | UAdd => lift (py_un UAdd v)                      (* "+v" (was "return v" until the repair of F-C03-unary-plus-identity) *)
   | USub => lift (py_un USub v)                      (* "-v": TypeError escapes *)
   | Not => CVal (VBool (negb (truthy v)))
   | Invert => CFail KValue                           (* not in _UN; falls through to "unsupported" *)
@@ -233,7 +233,7 @@ Fixpoint eval_const (cenv : cenv) (e : pexpr) {struct e} : cres :=
 Inductive prim :=
 | PArith (op : binop)      (* ops[opcls](a, b) on two already evaluated numbers *)
 | PConcat                  (* a + b on two already evaluated strings *)
-| PNeg                     (* -v *)
+| PNeg                     (* -v, +v *)
 | PCast (f : ident)        (* _SAFE_CASTS[f](inner) *)
 | PStr                     (* str(...) of an f-string part *)
 | PLen | PAbs
@@ -259,7 +259,7 @@ Definition apply_bin_fx (op : binop) (a b : pval) : fx pval :=
    if (match op with Add => is_strv a && is_strv b | _ => false end) then [PConcat]
    else if is_numv a && is_numv b && negb (too_large op a b) then [PArith op] else []).
 Definition un_step_fx (op : unop) (v : pval) : fx pval :=
-  (un_step op v, match op with USub => [PNeg] | Not => [PTruth] | _ => [] end).
+  (un_step op v, match op with USub | UAdd => [PNeg] | Not => [PTruth] | _ => [] end).
 Definition cmp_step_fx (op : cmpop) (l r : pval) : fx bool :=
   (cmp_step op l r, if cmp_known op then [PCompare] else []).
 Definition len_step_fx (v : pval) : fx pval :=
@@ -422,14 +422,6 @@ Definition is_minmax (f : ident) : bool := text_eqb f n_max || text_eqb f n_min.
 Fixpoint in_guard (c : cenv) (e : pexpr) : bool :=
   let fix all (l : list pexpr) : bool := match l with [] => true | x :: r => in_guard c x && all r end in
   match e with
-  | EUn UAdd a =>
-      in_guard c a &&
-      match eval_const c a with           (* "+v" is folded to v itself: only sound when +v is v *)
-      | CVal (VInt _) => true
-      | CVal (VFloat q) => qnormal q      (* representation invariant of float values, always true of decoded values *)
-      | CVal _ => false
-      | _ => true
-      end
   | EUn _ a => in_guard c a
   | EBin _ a b => in_guard c a && in_guard c b
   | EBoolOp _ vs => all vs
@@ -552,7 +544,7 @@ Definition is_divlike (e : pexpr) : bool :=
 Definition is_type_source (e : pexpr) : bool :=
   match e with
   | EBin BitAnd _ _ | EBin BitOr _ _ | EBin BitXor _ _ | EBin LShift _ _ | EBin RShift _ _ | EBin MatMult _ _ => true
-  | EUn USub _ => true
+  | EUn USub _ | EUn UAdd _ => true
   | ECompare _ _ _ => true
   | ECall f _ _ => is_minmax f
   | _ => false end.
